@@ -115,14 +115,10 @@ func c03Promote(r *Run, npkg *packages.Package) {
 		}
 		return nil
 	}
-	for _, fd := range funcDecls(npkg) {
-		if fd.Body == nil {
-			continue
-		}
-		if fn, _ := info.Defs[fd.Name].(*types.Func); fn != nil {
-			if _, isConv := intConv[fn]; isConv {
-				continue // the converter itself: judged where it is applied
-			}
+	parentsMemo := map[*ast.FuncDecl]map[ast.Node]ast.Node{}
+	parentsOf := func(fd *ast.FuncDecl) map[ast.Node]ast.Node {
+		if m := parentsMemo[fd]; m != nil {
+			return m
 		}
 		parents := map[ast.Node]ast.Node{}
 		var stack []ast.Node
@@ -137,6 +133,40 @@ func c03Promote(r *Run, npkg *packages.Package) {
 			stack = append(stack, n)
 			return true
 		})
+		parentsMemo[fd] = parents
+		return parents
+	}
+	// call sites of package functions, for operands that are parameters of a helper: the helper's
+	// callers must have excluded the float
+	type callSite struct {
+		fd   *ast.FuncDecl
+		call *ast.CallExpr
+	}
+	callSites := map[*types.Func][]callSite{}
+	for _, fd := range funcDecls(npkg) {
+		if fd.Body == nil {
+			continue
+		}
+		ast.Inspect(fd.Body, func(n ast.Node) bool {
+			if c, ok := n.(*ast.CallExpr); ok {
+				if cal := calleeFunc(info, c); cal != nil && cal.Pkg() == npkg.Types {
+					callSites[cal.Origin()] = append(callSites[cal.Origin()], callSite{fd, c})
+				}
+			}
+			return true
+		})
+	}
+	var notFloatIn func(fd *ast.FuncDecl, x types.Object, at ast.Node, depth int) bool
+	for _, fd := range funcDecls(npkg) {
+		if fd.Body == nil {
+			continue
+		}
+		if fn, _ := info.Defs[fd.Name].(*types.Func); fn != nil {
+			if _, isConv := intConv[fn]; isConv {
+				continue // the converter itself: judged where it is applied
+			}
+		}
+		parents := parentsOf(fd)
 		// asserted views: a, ok := X.(AsInt)  → a stands for X
 		viewOf := map[types.Object]types.Object{}
 		// switch v := X.(type): v stands for X inside the cases
@@ -316,158 +346,200 @@ func c03Promote(r *Run, npkg *packages.Package) {
 			return found, pos
 		}
 		// is X known not to be a float at node `at`?
-		notFloat := func(x types.Object, at ast.Node) bool {
-			// (a) enclosing case of a type switch on X (or X is the switch's bound variable)
-			for n := parents[at]; n != nil; n = parents[n] {
-				cc, ok := n.(*ast.CaseClause)
-				if !ok {
-					continue
-				}
-				body, _ := parents[cc].(*ast.BlockStmt)
-				ts, _ := parents[body].(*ast.TypeSwitchStmt)
-				if ts == nil {
-					continue
-				}
-				var subject types.Object
-				bound := false
-				switch a := ts.Assign.(type) {
-				case *ast.ExprStmt:
-					if ta, ok := ast.Unparen(a.X).(*ast.TypeAssertExpr); ok {
-						subject = objOf(ta.X)
-					}
-				case *ast.AssignStmt:
-					if len(a.Rhs) == 1 {
-						if ta, ok := ast.Unparen(a.Rhs[0]).(*ast.TypeAssertExpr); ok {
-							subject = objOf(ta.X)
-						}
-					}
-					if o := info.Implicits[cc]; o != nil && o == x {
-						bound = true
-					}
-				}
-				if subject != x && !bound {
-					continue
-				}
-				// an earlier clause of the same switch that takes the float value type (or everything that
-				// converts to a float) leaves no float for the later clauses
-				floatTaken := false
-				for _, st := range body.List {
-					if st == ast.Stmt(cc) {
-						break
-					}
-					for _, te := range st.(*ast.CaseClause).List {
-						if isFloatish(info.TypeOf(te)) {
-							floatTaken = true
-						}
-					}
-				}
-				if len(cc.List) == 0 && !floatTaken {
-					continue // default: anything
-				}
-				all := true
-				for _, te := range cc.List {
-					t := info.TypeOf(te)
-					if t == nil || isFloatish(t) {
-						all = false
+		notFloat := func(x types.Object, at ast.Node) bool { return notFloatIn(fd, x, at, 0) }
+		if notFloatIn == nil {
+			notFloatIn = func(fd *ast.FuncDecl, x types.Object, at ast.Node, depth int) bool {
+				parents := parentsOf(fd)
+				// (a) enclosing case of a type switch on X (or X is the switch's bound variable)
+				for n := parents[at]; n != nil; n = parents[n] {
+					cc, ok := n.(*ast.CaseClause)
+					if !ok {
 						continue
 					}
-					if _, isIface := t.Underlying().(*types.Interface); isIface && !floatTaken {
-						all = false // an interface case admits the float value type if it implements it
+					body, _ := parents[cc].(*ast.BlockStmt)
+					ts, _ := parents[body].(*ast.TypeSwitchStmt)
+					if ts == nil {
+						continue
 					}
-				}
-				if all {
-					return true
-				}
-			}
-			// (b) an earlier `if` in an enclosing statement list that tested X for float-ness and left
-			isFloatTest := func(cond ast.Expr, init ast.Stmt) bool {
-				hit := false
-				check := func(n ast.Node) {
-					ast.Inspect(n, func(m ast.Node) bool {
-						switch y := m.(type) {
-						case *ast.TypeAssertExpr:
-							if y.Type != nil && isFloatish(info.TypeOf(y.Type)) && objOf(y.X) == x {
-								hit = true
-							}
-						case *ast.CallExpr:
-							if cal := calleeFunc(info, y); cal != nil {
-								if pi, ok := floatTest[cal]; ok && pi < len(y.Args) && objOf(y.Args[pi]) == x {
-									hit = true
-								}
-							}
+					var subject types.Object
+					bound := false
+					switch a := ts.Assign.(type) {
+					case *ast.ExprStmt:
+						if ta, ok := ast.Unparen(a.X).(*ast.TypeAssertExpr); ok {
+							subject = objOf(ta.X)
 						}
-						return true
-					})
-				}
-				if init != nil {
-					check(init)
-				}
-				if cond != nil {
-					check(cond)
-				}
-				return hit
-			}
-			terminates := func(b *ast.BlockStmt) bool {
-				if b == nil || len(b.List) == 0 {
-					return false
-				}
-				switch b.List[len(b.List)-1].(type) {
-				case *ast.ReturnStmt:
-					return true
-				}
-				return false
-			}
-			var child ast.Node = at
-			for n := parents[at]; n != nil; child, n = n, parents[n] {
-				var list []ast.Stmt
-				switch b := n.(type) {
-				case *ast.BlockStmt:
-					list = b.List
-				case *ast.CaseClause:
-					list = b.Body
-				}
-				for _, st := range list {
-					if ast.Node(st) == child {
-						break
-					}
-					// (the float arm may itself be conditional on the other operand being numeric: an arm that
-					// can leave is taken as the float route)
-					if is, ok := st.(*ast.IfStmt); ok && isFloatTest(is.Cond, is.Init) && (terminates(is.Body) || containsReturn(is.Body)) {
-						return true
-					}
-					// an earlier type switch on X whose float clause leaves the function
-					if ts, ok := st.(*ast.TypeSwitchStmt); ok {
-						var subject types.Object
-						switch a := ts.Assign.(type) {
-						case *ast.ExprStmt:
-							if ta, ok := ast.Unparen(a.X).(*ast.TypeAssertExpr); ok {
+					case *ast.AssignStmt:
+						if len(a.Rhs) == 1 {
+							if ta, ok := ast.Unparen(a.Rhs[0]).(*ast.TypeAssertExpr); ok {
 								subject = objOf(ta.X)
 							}
-						case *ast.AssignStmt:
-							if len(a.Rhs) == 1 {
-								if ta, ok := ast.Unparen(a.Rhs[0]).(*ast.TypeAssertExpr); ok {
-									subject = objOf(ta.X)
-								}
+						}
+						if o := info.Implicits[cc]; o != nil && o == x {
+							bound = true
+						}
+					}
+					if subject != x && !bound {
+						continue
+					}
+					// an earlier clause of the same switch that takes the float value type (or everything that
+					// converts to a float) leaves no float for the later clauses
+					floatTaken := false
+					for _, st := range body.List {
+						if st == ast.Stmt(cc) {
+							break
+						}
+						for _, te := range st.(*ast.CaseClause).List {
+							if isFloatish(info.TypeOf(te)) {
+								floatTaken = true
 							}
 						}
-						if subject == x {
-							for _, c := range ts.Body.List {
-								cc := c.(*ast.CaseClause)
-								for _, te := range cc.List {
-									if isFloatish(info.TypeOf(te)) && terminates(&ast.BlockStmt{List: cc.Body}) {
-										return true
+					}
+					if len(cc.List) == 0 && !floatTaken {
+						continue // default: anything
+					}
+					all := true
+					for _, te := range cc.List {
+						t := info.TypeOf(te)
+						if t == nil || isFloatish(t) {
+							all = false
+							continue
+						}
+						if _, isIface := t.Underlying().(*types.Interface); isIface && !floatTaken {
+							all = false // an interface case admits the float value type if it implements it
+						}
+					}
+					if all {
+						return true
+					}
+				}
+				// (b) an earlier `if` in an enclosing statement list that tested X for float-ness and left
+				isFloatTest := func(cond ast.Expr, init ast.Stmt) bool {
+					hit := false
+					check := func(n ast.Node) {
+						ast.Inspect(n, func(m ast.Node) bool {
+							switch y := m.(type) {
+							case *ast.TypeAssertExpr:
+								if y.Type != nil && isFloatish(info.TypeOf(y.Type)) && objOf(y.X) == x {
+									hit = true
+								}
+							case *ast.CallExpr:
+								if cal := calleeFunc(info, y); cal != nil {
+									if pi, ok := floatTest[cal]; ok && pi < len(y.Args) && objOf(y.Args[pi]) == x {
+										hit = true
+									}
+								}
+							}
+							return true
+						})
+					}
+					if init != nil {
+						check(init)
+					}
+					if cond != nil {
+						check(cond)
+					}
+					return hit
+				}
+				terminates := func(b *ast.BlockStmt) bool {
+					if b == nil || len(b.List) == 0 {
+						return false
+					}
+					switch b.List[len(b.List)-1].(type) {
+					case *ast.ReturnStmt:
+						return true
+					}
+					return false
+				}
+				var child ast.Node = at
+				for n := parents[at]; n != nil; child, n = n, parents[n] {
+					var list []ast.Stmt
+					switch b := n.(type) {
+					case *ast.BlockStmt:
+						list = b.List
+					case *ast.CaseClause:
+						list = b.Body
+					}
+					for _, st := range list {
+						if ast.Node(st) == child {
+							break
+						}
+						// (the float arm may itself be conditional on the other operand being numeric: an arm that
+						// can leave is taken as the float route)
+						if is, ok := st.(*ast.IfStmt); ok && isFloatTest(is.Cond, is.Init) && (terminates(is.Body) || containsReturn(is.Body)) {
+							return true
+						}
+						// an earlier type switch on X whose float clause leaves the function
+						if ts, ok := st.(*ast.TypeSwitchStmt); ok {
+							var subject types.Object
+							switch a := ts.Assign.(type) {
+							case *ast.ExprStmt:
+								if ta, ok := ast.Unparen(a.X).(*ast.TypeAssertExpr); ok {
+									subject = objOf(ta.X)
+								}
+							case *ast.AssignStmt:
+								if len(a.Rhs) == 1 {
+									if ta, ok := ast.Unparen(a.Rhs[0]).(*ast.TypeAssertExpr); ok {
+										subject = objOf(ta.X)
+									}
+								}
+							}
+							if subject == x {
+								for _, c := range ts.Body.List {
+									cc := c.(*ast.CaseClause)
+									for _, te := range cc.List {
+										if isFloatish(info.TypeOf(te)) && terminates(&ast.BlockStmt{List: cc.Body}) {
+											return true
+										}
 									}
 								}
 							}
 						}
 					}
+					// the else branch of a float test
+					if is, ok := n.(*ast.IfStmt); ok && is.Else != nil && ast.Node(is.Else) == child && isFloatTest(is.Cond, is.Init) {
+						return true
+					}
 				}
-				// the else branch of a float test
-				if is, ok := n.(*ast.IfStmt); ok && is.Else != nil && ast.Node(is.Else) == child && isFloatTest(is.Cond, is.Init) {
-					return true
+				// (c) X is a parameter of this function: every caller in the package hands in an operand it
+				// has itself excluded from being a float
+				if depth < 2 {
+					if fn, _ := info.Defs[fd.Name].(*types.Func); fn != nil {
+						pi := -1
+						k := 0
+						if fd.Type.Params != nil {
+							for _, f := range fd.Type.Params.List {
+								for _, nm := range f.Names {
+									if info.Defs[nm] == x {
+										pi = k
+									}
+									k++
+								}
+								if len(f.Names) == 0 {
+									k++
+								}
+							}
+						}
+						if sites := callSites[fn]; pi >= 0 && len(sites) > 0 {
+							all := true
+							for _, cs := range sites {
+								if pi >= len(cs.call.Args) {
+									all = false
+									break
+								}
+								y := objOf(cs.call.Args[pi])
+								if y == nil || !notFloatIn(cs.fd, y, cs.call, depth+1) {
+									all = false
+									break
+								}
+							}
+							if all {
+								return true
+							}
+						}
+					}
 				}
+				return false
 			}
-			return false
 		}
 		fk := funcKey(npkg, fd)
 		seen := map[string]int{}
